@@ -381,10 +381,12 @@ class BinaryPolynomial(abc.MutableMapping):
             2
 
         """
-        poly = {(k,): v for k, v in h.items()}
-        poly.update(J)
+        # pass the terms as an iterable so that a term of J on a single
+        # variable is added to that variable's linear bias rather than replacing it
+        poly = [((k,), v) for k, v in h.items()]
+        poly.extend(J.items())
         if offset is not None:
-            poly[frozenset([])] = offset
+            poly.append((frozenset([]), offset))
         return cls(poly, Vartype.SPIN)
 
     def to_hising(self):
